@@ -65,7 +65,28 @@ def run(ctx):
         for rec in tlc.payload_lines(r.outfile):
             samples.append({"config": c, "frames": rec["frames"], "schedule": [":".join(s) for s in rec["sched"]]})
             break
+    # free-running traffic in which channels are ended while their own side is still inside Send, over a network that
+    # stalls once per run (write queues fill up, Send and Free block on them): panics, crashes and hangs only
+    rough_runs = 0
+    tb = ctx.go_build("mtraffic")
+    for sd in ([ctx.seed] if ctx.quick() else [ctx.seed, ctx.seed + 1, ctx.seed + 2]):
+        n = 80 if ctx.quick() else 400
+        wd = ctx.scratch("rough-%d" % sd)
+        p = ctx.run([tb, "-out", os.path.join(wd, "t.ndjson"), "-runs", str(n), "-seed", str(sd), "-rough", "-stall"], timeout=3000)
+        if p.returncode != 0:
+            raise Broken("mtraffic -rough failed: %s" % p.stderr[-2000:])
+        for line in p.stdout.splitlines():
+            if not line.startswith("{"):
+                continue
+            d = json.loads(line)
+            if "summary" in d:
+                rough_runs += d["summary"]["runs"]
+            elif d["sig"] == "harness":
+                raise Broken("mtraffic: " + d["detail"])
+            else:
+                ctx.violation("rough:" + d["sig"], "%s | %s" % (d.get("detail"), d.get("config", "")), d)
     ctx.coverage = {
+        "rough_traffic_runs": rough_runs,
         "states": states, "transitions": trans, "traces_validated_against_impl": total, "samples": samples,
         "invariants": ["NoLibraryPanic", "NoUserPanic", "NoUseAfterRelease", "RefsNonNegative", "ReleasedOnce", "NoPrematureRelease", "EndedClean"],
         "configs": {"a": "user Free vs send loop vs receive loop (frames in flight: data*, close)",
